@@ -19,10 +19,10 @@ CONSTANTS
   KTimes <- KT_two
   KConcs <- KC_two
   Wrongs <- W_none
-  CPlans <- Plans_two
+  CPlans = {1}
   TUnits = {"s"}
   KRegs <- KRegs6
-  Outs <- Outs_three
+  Outs <- Outs_one
   Modes = {"inline", "named", "subs", "mixed"}
   EqTemplates = {}
   EqWrongs = {}
